@@ -18,6 +18,7 @@ import (
 
 	"verif/common"
 	"verif/exech"
+	"verif/explore"
 	"verif/probe"
 )
 
@@ -87,7 +88,9 @@ func BuildAll(probeName string, cfgs []ProbeConfig) []Built {
 				b.Err = fmt.Errorf("generation failed (exit %d): %s", res.ExitCode, res.Output)
 			} else {
 				b.Bin = filepath.Join(res.Dir, "harness.bin")
-				pkgs := append([]string{}, probe.RuntimePkgs...)
+				// -maprange: generated code ranges over maps (deferred groups by label); the
+				// order is pinned (sorted) so that replay is deterministic
+				pkgs := append([]string{"-maprange"}, probe.RuntimePkgs...)
 				pkgs = append(pkgs, "probe/graph")
 				b.Err = probe.BuildInstrumented(res.Dir, pkgs, "./harness", b.Bin)
 			}
@@ -230,5 +233,99 @@ func Replay(builds []Built, path string) int {
 		}
 	}
 	common.Broken("replay: config %q not built in this tier", doc.Replay.Config)
+	return 2
+}
+
+// RunSched runs the scheduler-based exploration of prop in every configuration's harness
+// (each harness shards its scenarios over worker processes itself) and returns all
+// scenario statistics, scenario names prefixed with the configuration.
+func RunSched(prop, tier string, builds []Built, budget time.Duration) []explore.Stats {
+	var all []explore.Stats
+	for bi, b := range builds {
+		share := budget / time.Duration(len(builds)-bi)
+		t0 := time.Now()
+		cmd := exec.Command(b.Bin, "--prop", prop, "--tier", tier, "--emit-stats", "1", "--budget", strconv.Itoa(int(share.Seconds())))
+		cmd.Env = append(os.Environ(), "VERIF_CONFIG="+b.Cfg.Name)
+		cmd.Stderr = os.Stderr
+		out, err := cmd.Output()
+		if err != nil {
+			common.Broken("harness %s for %s failed: %v", b.Cfg.Name, prop, err)
+		}
+		var sts []explore.Stats
+		if err := json.Unmarshal(out, &sts); err != nil {
+			common.Broken("harness %s output: %v: %.300s", b.Cfg.Name, err, out)
+		}
+		for i := range sts {
+			sts[i].Scenario = b.Cfg.Name + ": " + sts[i].Scenario
+			for j := range sts[i].Found {
+				sts[i].Found[j].Scenario = sts[i].Scenario
+				sts[i].Found[j].Meta = map[string]any{"config": b.Cfg.Name, "case": sts[i].Found[j].Meta}
+			}
+		}
+		all = append(all, sts...)
+		budget -= time.Since(t0)
+		if budget < 0 {
+			budget = 0
+		}
+	}
+	return all
+}
+
+// SchedCheck is the whole top-level main of a scheduler-based generated-code property.
+func SchedCheck(prop string, cfgsQuick, cfgsThorough []ProbeConfig, bound map[string]int, assume []string) {
+	c := common.New(prop, "model_checking")
+	cfgs := cfgsQuick
+	budget := 110 * time.Second
+	if c.Tier == "thorough" {
+		cfgs = cfgsThorough
+		budget = 13 * time.Minute
+	}
+	builds := BuildAll("exec", cfgs)
+	for _, b := range builds {
+		if b.Err != nil {
+			probe.Cleanup()
+			common.Broken("config %s: %v", b.Cfg.Name, b.Err)
+		}
+	}
+	if rp := common.ReplayArg(); rp != "" {
+		code := ReplaySched(builds, prop, c.Tier, rp)
+		probe.Cleanup()
+		os.Exit(code)
+	}
+	all := RunSched(prop, c.Tier, builds, budget)
+	explore.Summarize(c, explore.Config{Bound: bound[c.Tier], MaxSteps: 20000}, all, len(all))
+	c.Assume = assume
+	probe.Cleanup()
+	c.Finish()
+}
+
+// ReplaySched re-runs the schedule of a replay file in the harness of its configuration.
+func ReplaySched(builds []Built, prop, tier, path string) int {
+	b, err := os.ReadFile(path)
+	if err != nil {
+		common.Broken("replay: %v", err)
+	}
+	var doc struct {
+		Replay struct {
+			Scenario string `json:"scenario"`
+		} `json:"replay"`
+	}
+	json.Unmarshal(b, &doc)
+	for _, bl := range builds {
+		pre := bl.Cfg.Name + ": "
+		if strings.HasPrefix(doc.Replay.Scenario, pre) {
+			cmd := exec.Command(bl.Bin, "--prop", prop, "--tier", tier, "--replay", path, "--strip-prefix", pre)
+			cmd.Stdout, cmd.Stderr = os.Stdout, os.Stderr
+			cmd.Env = append(os.Environ(), "VERIF_CONFIG="+bl.Cfg.Name)
+			if err := cmd.Run(); err != nil {
+				if ee, ok := err.(*exec.ExitError); ok {
+					return ee.ExitCode()
+				}
+				return 2
+			}
+			return 0
+		}
+	}
+	common.Broken("replay: no configuration matches scenario %q in this tier", doc.Replay.Scenario)
 	return 2
 }
